@@ -6,7 +6,7 @@ import io as _rio
 
 from ..core import Unsupported
 from ..env import ENV
-from ..symbytes import SymByteArray, SymBytes, mkbytes, _items_of
+from ..symbytes import SymByteArray, SymBytes, SymMemView, mkbytes, _items_of
 
 DEFAULT_BUFFER_SIZE = _rio.DEFAULT_BUFFER_SIZE
 UnsupportedOperation = _rio.UnsupportedOperation
@@ -139,6 +139,12 @@ def _choice(n, label):
 
 
 class BufferedWriter(BufferedIOBase):
+    """Policy 'c' follows Modules/_io/bufferedio.c statement by statement for a write-only, non-seekable raw
+    stream: one fixed buffer, raw.write() receives a memoryview *into that buffer* (or into the caller's
+    object for the direct writes of oversized data), a raw write that returns None is a would-block condition
+    (BlockingIOError, with the shift-and-buffer recovery inside write()).  Policies 'pyio'/'nondet' hand
+    copies to the raw stream."""
+
     def __init__(self, raw, buffer_size=DEFAULT_BUFFER_SIZE):
         if not raw.writable():
             raise OSError('"raw" argument must be writable.')
@@ -147,6 +153,11 @@ class BufferedWriter(BufferedIOBase):
         self.raw = raw
         self.buffer_size = buffer_size
         self._buf = []
+        # C state
+        self._cbuf = [0] * buffer_size
+        self._pos = 0
+        self._write_pos = 0
+        self._write_end = -1
 
     def writable(self):
         return True
@@ -155,6 +166,86 @@ class BufferedWriter(BufferedIOBase):
     def closed(self):
         return self.raw.closed
 
+    # ---- C implementation -------------------------------------------------------------------
+    def _c_raw_write(self, base, start, length):
+        res = self.raw.write(SymMemView(base, start, start + length))
+        if res is None:
+            return -2
+        n = res.__index__()
+        if n < 0 or n > length:
+            raise OSError("raw write() returned invalid length %d (should have been between 0 "
+                          "and %d)" % (n, length))
+        if n == 0:
+            raise Unsupported("raw write() made no progress")     # CPython would spin
+        return n
+
+    def _c_flush(self):
+        if self._write_end == -1 or self._write_pos == self._write_end:
+            return
+        while self._write_pos < self._write_end:
+            n = self._c_raw_write(self._cbuf, self._write_pos, self._write_end - self._write_pos)
+            if n == -2:
+                raise BlockingIOError(11, "write could not complete without blocking", 0)
+            self._write_pos += n
+        self._write_pos = 0
+        self._write_end = -1
+
+    def _c_write(self, b, items):
+        L = len(items)
+        bs = self.buffer_size
+        cb = self._cbuf
+        if self._write_end == -1:
+            self._pos = 0
+        avail = bs - self._pos
+        if L <= avail:
+            cb[self._pos:self._pos + L] = items
+            if self._write_end == -1 or self._write_pos > self._pos:
+                self._write_pos = self._pos
+            self._pos += L
+            if self._pos > self._write_end:
+                self._write_end = self._pos
+            return L
+        try:
+            self._c_flush()
+        except BlockingIOError:
+            # make some place by shifting the buffer
+            k = self._write_end - self._write_pos
+            cb[0:k] = cb[self._write_pos:self._write_end]
+            self._write_end -= self._write_pos
+            self._pos -= self._write_pos
+            self._write_pos = 0
+            avail = bs - self._write_end
+            if L <= avail:
+                cb[self._write_end:self._write_end + L] = items
+                self._write_end += L
+                self._pos += L
+                return L
+            cb[self._write_end:self._write_end + avail] = items[:avail]
+            self._write_end += avail
+            self._pos += avail
+            raise BlockingIOError(11, "write could not complete without blocking", avail)
+        # the buffer is empty now; oversized data goes to the raw stream directly from the caller's object
+        base = b._items if isinstance(b, SymByteArray) else list(items)
+        remaining, written = L, 0
+        while remaining > bs:
+            n = self._c_raw_write(base, written, L - written)
+            if n == -2:
+                cb[0:bs] = items[written:written + bs]
+                self._pos = bs
+                self._write_pos = 0
+                self._write_end = bs
+                written += bs
+                raise BlockingIOError(11, "write could not complete without blocking", written)
+            written += n
+            remaining -= n
+        if remaining > 0:
+            cb[0:remaining] = items[written:]
+        self._write_pos = 0
+        self._write_end = remaining
+        self._pos = remaining
+        return L
+
+    # ---- copies (pyio / nondet) ---------------------------------------------------------------
     def _raw_write(self, items):
         n = self.raw.write(mkbytes(items))
         if n is None:
@@ -181,16 +272,7 @@ class BufferedWriter(BufferedIOBase):
             raise TypeError("a bytes-like object is required")
         pol = ENV.io_policy
         if pol == "c":
-            if len(self._buf) + len(items) <= self.buffer_size:
-                self._buf.extend(items)
-                return len(items)
-            self._flush_buf()
-            rest = list(items)
-            while len(rest) > self.buffer_size:
-                n = self._raw_write(rest)
-                del rest[:n]
-            self._buf = rest
-            return len(items)
+            return self._c_write(b, items)
         if pol == "pyio":
             if len(self._buf) > self.buffer_size:
                 self._flush_buf()
@@ -210,16 +292,36 @@ class BufferedWriter(BufferedIOBase):
     def flush(self):
         if self.closed:
             raise ValueError("flush of closed file")
-        self._flush_buf()
+        if ENV.io_policy == "c":
+            self._c_flush()
+        else:
+            self._flush_buf()
 
     def close(self):
-        if self.raw is not None and not self.closed:
-            try:
-                self.flush()
-            finally:
-                self.raw.close()
+        if self.raw is None or self.closed:
+            return
+        # C: flush(), then raw.close() in any case; an error of the flush is raised afterwards (as the context
+        # of an error of raw.close() if that fails too)
+        err = None
+        try:
+            self.flush()
+        except BaseException as e:      # noqa: path-steering exceptions are re-raised below unchanged
+            err = e
+        if err is not None and not isinstance(err, Exception):
+            raise err
+        try:
+            self.raw.close()
+        except Exception as e2:
+            if err is not None and e2.__context__ is None:
+                e2.__context__ = err
+            raise
+        if err is not None:
+            raise err
 
     def tell(self):
+        if ENV.io_policy == "c":
+            pending = 0 if self._write_end == -1 else self._write_end - self._write_pos
+            return self.raw.tell() + pending
         return self.raw.tell() + len(self._buf)
 
     def detach(self):
@@ -254,9 +356,103 @@ class BufferedReader(BufferedIOBase):
                           "0 and %d)" % (n, size))
         return b._items[:n]
 
+    # ---- C implementation (Modules/_io/bufferedio.c), read-only non-seekable raw stream ----------
+    # fixed buffer _cbuf, _pos (next byte to hand out), _read_end (-1: no valid read buffer).  Refills go to
+    # _cbuf[_read_end:buffer_size]: bytes already handed out still occupy their place until the buffer is reset.
+    def _c_state(self):
+        if not hasattr(self, "_cbuf"):
+            self._cbuf = [0] * self.buffer_size
+            self._pos = 0
+            self._read_end = -1
+
+    def _c_readahead(self):
+        return self._read_end - self._pos if self._read_end != -1 else 0
+
+    def _c_raw_read(self, length):
+        """returns the list of items read (possibly empty = EOF) or None (would block)"""
+        return self._raw_readinto(length)
+
+    def _c_fill(self):
+        start = self._read_end if self._read_end != -1 else 0
+        got = self._c_raw_read(self.buffer_size - start)
+        if not got:
+            return got
+        self._cbuf[start:start + len(got)] = got
+        self._read_end = start + len(got)
+        return got
+
+    def _c_read(self, n):
+        self._c_state()
+        cur = self._c_readahead()
+        if n <= cur:
+            out = self._cbuf[self._pos:self._pos + n]
+            self._pos += n
+            return mkbytes(out)
+        out = []
+        remaining = n
+        if cur > 0:
+            out.extend(self._cbuf[self._pos:self._pos + cur])
+            remaining -= cur
+            self._pos += cur
+        self._read_end = -1
+        bs = self.buffer_size
+        while remaining > 0:
+            r = bs * (remaining // bs)
+            if r == 0:
+                break
+            got = self._c_raw_read(r)
+            if not got:
+                if got is not None or out:
+                    return mkbytes(out)
+                return None
+            out.extend(got)
+            remaining -= len(got)
+        self._pos = 0
+        self._read_end = 0
+        while remaining > 0 and self._read_end < bs:
+            got = self._c_fill()
+            if not got:
+                if got is not None or out:
+                    return mkbytes(out)
+                return None
+            r = len(got)
+            take = r if remaining > r else remaining
+            out.extend(self._cbuf[self._pos:self._pos + take])
+            self._pos += take
+            remaining -= take
+        return mkbytes(out)
+
+    def _c_read_all(self):
+        self._c_state()
+        cur = self._c_readahead()
+        out = self._cbuf[self._pos:self._pos + cur] if cur else []
+        self._pos += cur
+        self._read_end = -1
+        data = self.raw.readall()
+        if data is None:
+            return mkbytes(out) if cur else None
+        return mkbytes(out + _items_of(data))
+
+    def _c_read1(self, n):
+        self._c_state()
+        have = self._c_readahead()
+        if have > 0:
+            n = min(have, n)
+            out = self._cbuf[self._pos:self._pos + n]
+            self._pos += n
+            return mkbytes(out)
+        self._read_end = -1
+        got = self._c_raw_read(n)
+        return mkbytes(got or [])
+
     def read(self, size=-1):
         if self.closed:
             raise ValueError("read of closed file")
+        pol = ENV.io_policy
+        if pol == "c":
+            if size is None or size < 0:
+                return self._c_read_all()
+            return self._c_read(size.__index__())
         if size is None or size < 0:
             out = self._buf
             self._buf = []
@@ -268,28 +464,6 @@ class BufferedReader(BufferedIOBase):
         out = self._buf[:size]
         del self._buf[:size]
         remaining = size - len(out)
-        pol = ENV.io_policy
-        if pol == "c":
-            # direct reads in multiples of the buffer size, then through the buffer
-            while remaining > 0:
-                r = remaining - remaining % self.buffer_size
-                if r == 0:
-                    break
-                got = self._raw_readinto(r)
-                if not got:
-                    return mkbytes(out)
-                out.extend(got)
-                remaining -= len(got)
-            while remaining > 0:
-                got = self._raw_readinto(self.buffer_size - len(self._buf))
-                if not got:
-                    break
-                self._buf.extend(got)
-                take = self._buf[:remaining]
-                del self._buf[:remaining]
-                out.extend(take)
-                remaining -= len(take)
-            return mkbytes(out)
         # pyio / nondet: read chunks of max(buffer_size, remaining) through raw.read()
         while remaining > 0:
             want = max(self.buffer_size, remaining)
@@ -313,6 +487,8 @@ class BufferedReader(BufferedIOBase):
         size = size.__index__()
         if size == 0:
             return mkbytes([])
+        if ENV.io_policy == "c":
+            return self._c_read1(size)
         if self._buf:
             out = self._buf[:size]
             del self._buf[:size]
